@@ -81,11 +81,11 @@ type HostProvider interface {
 
 type connOption func(c *Conn)
 
-func WithLogger(logger Logger) connOption             { return func(c *Conn) {} }
-func WithDialer(dialer Dialer) connOption             { return func(c *Conn) {} }
-func WithHostProvider(hp HostProvider) connOption     { return func(c *Conn) {} }
-func WithLogInfo(logInfo bool) connOption             { return func(c *Conn) {} }
-func WithMaxBufferSize(maxBufferSize int) connOption  { return func(c *Conn) {} }
+func WithLogger(logger Logger) connOption            { return func(c *Conn) {} }
+func WithDialer(dialer Dialer) connOption            { return func(c *Conn) {} }
+func WithHostProvider(hp HostProvider) connOption    { return func(c *Conn) {} }
+func WithLogInfo(logInfo bool) connOption            { return func(c *Conn) {} }
+func WithMaxBufferSize(maxBufferSize int) connOption { return func(c *Conn) {} }
 
 // Conn is a client handle.
 type Conn struct {
